@@ -138,6 +138,12 @@ CLAIMED = {
             'operator%, ceil, floor): every signed add/sub/negate/divide and narrowing is discharged by LLVM -O2 or justified with guards that must be present; the word '
             'paths exclude the INT_MIN operand pair whose quotient does not fit. The rounding identities themselves need a solver and are not decided.',
             'static analysis: compiler-discharged sanitizer obligations read from LLVM IR + frozen justified residual table', 'clang 14.0.6 -O2 as the discharging analysis'),
+    'C05': ('other',
+            'Static: where the code forks on an option the forks are exhaustive (createTheory over Logic_t) and sibling branches agree on the mandatory steps (per-partition vs '
+            'whole-frame preprocessing); code that only some configurations execute keeps the shared invariants - every engine precedes its model-found exits by a complete '
+            'theory check and sets the conflict frame, SatELite respects frozen variables, conflict-clause minimisation restores its scratch marks on every negative exit, '
+            'randomised choices draw from the configured seed. Necessary conditions; that two code paths compute the same answer is not decided.',
+            'static analysis: exhaustiveness and sibling-branch agreement rules + the path-sensitive engine rules shared with C01/C02/C04/C23', ''),
 }
 
 NOT_APPLICABLE = {
